@@ -41,6 +41,10 @@ pub enum StoreFault {
     Truncate { len: usize },
     Append { bytes: Hx },
     AppendRecord { from_file: usize, i: usize },
+    /// a long run of zero bytes after the file (a sparse tail, a concatenated image)
+    AppendZeros { n: usize },
+    /// cut the file right after chunk record i (applied after the structural faults)
+    CutAfterRecord { i: usize },
 }
 
 #[derive(Serialize, Deserialize, Clone, Debug, PartialEq)]
@@ -201,6 +205,19 @@ pub fn apply(files: &[Structured], target: usize, faults: &[StoreFault]) -> Vec<
                 }
             }
             StoreFault::Append { bytes } => b.extend_from_slice(&bytes.0),
+            StoreFault::AppendZeros { n } => b.resize(b.len() + *n, 0),
+            StoreFault::CutAfterRecord { i } => {
+                let mut off = t.header_len();
+                for (k, r) in t.recs.iter().enumerate() {
+                    off += r.iter().map(|p| p.len()).sum::<usize>();
+                    if k == *i {
+                        break;
+                    }
+                }
+                if off < b.len() {
+                    b.truncate(off);
+                }
+            }
             StoreFault::AppendRecord { from_file, i } => {
                 if let Some(src) = files.get(*from_file) {
                     if let Some(r) = src.recs.get(*i) {
@@ -262,6 +279,8 @@ fn fault_class(f: &StoreFault, hl: usize) -> String {
         StoreFault::SetCounter { .. } => "counter".into(),
         StoreFault::SetLen { .. } => "len".into(),
         StoreFault::Append { .. } => "append".into(),
+        StoreFault::AppendZeros { .. } => "appendzeros".into(),
+        StoreFault::CutAfterRecord { .. } => "cutafter".into(),
         StoreFault::AppendRecord { .. } => "appendrec".into(),
     }
 }
@@ -553,6 +572,17 @@ impl Family for A3 {
             }
             one(vec![StoreFault::Truncate { len }]);
         }
+        // a non-final chunk promoted to "last" (or to any other flag value) with the file cut right
+        // after it: the classic truncation attack, plus its non-canonical variants
+        for i in 0..t.recs.len().min(6) {
+            for v in [1u32, 2, 0x0100_0000, 0xFFFF_FFFF] {
+                one(vec![StoreFault::SetFlag { i, v }, StoreFault::CutAfterRecord { i }]);
+            }
+            one(vec![StoreFault::CutAfterRecord { i }]);
+        }
+        // a long tail behind an authentic file must be refused without being buffered
+        one(vec![StoreFault::AppendZeros { n: 300_000 }]);
+        one(vec![StoreFault::AppendZeros { n: 2_000_000 }]);
         // extension by one byte and by whole authentic records
         one(vec![StoreFault::Append { bytes: Hx(vec![0]) }]);
         one(vec![StoreFault::Append { bytes: Hx(vec![0xff]) }]);
